@@ -114,6 +114,9 @@ def array_roots(a):
     return out
 
 
+import re as _re
+_LEAF = _re.compile(r'^(.*)\.a(\d+)!(\d+)$')
+_LEN = _re.compile(r'^(.*)\.len!(\d+)$')
 _prenex_n = [0]
 
 
@@ -245,6 +248,17 @@ class Inst:
                     for x in array_roots(a):
                         for y in array_roots(b):
                             union(x.get_id(), y.get_id())
+        # the parallel component arrays of ONE list of tuples (names base.a0!n, base.a1!n+1, ...) are indexed by the same positions
+        groups = {}
+        for f in list(forms) + [q.body() for q in self.quants]:
+            for t in subterms(f, lambda x: z3.is_const(x) and z3.is_array(x)):
+                m = _LEAF.match(t.decl().name())
+                if m:
+                    groups.setdefault((m.group(1), int(m.group(3)) - int(m.group(2))), []).append(t.get_id())
+        for ids in groups.values():
+            for x in ids[1:]:
+                union(ids[0], x)
+        self.list_rep = {k: ids[0] for k, ids in groups.items()}      # (base name, id of the list) -> one of its component arrays
         return find
 
     def candidates(self, q, reads, apps, find, class_reads):
@@ -331,6 +345,7 @@ class Inst:
                     l, r = lit.children()
                     neg = {z3.Z3_OP_LE: l > r, z3.Z3_OP_GE: l < r, z3.Z3_OP_LT: l >= r, z3.Z3_OP_GT: l <= r}[lit.decl().kind()]
                     guards.append(neg)
+        pending_len = []
         for a in guards:
             if not z3.is_app(a) or a.num_args() != 2:
                 continue
@@ -349,11 +364,21 @@ class Inst:
                     val = other
                 elif (k == z3.Z3_OP_LT and side == 'R') or (k == z3.Z3_OP_GT and side == 'L'):    # other < v
                     val = other + 1
+                if val is not None and not cands[vi] and z3.is_const(other):
+                    # a variable without any trigger of its own, bounded by the length of a list (forall r < len(X): ...skolem(r)...):
+                    # the positions at which X is read elsewhere are its candidates
+                    m_ = _LEN.match(other.decl().name())
+                    rep = getattr(self, 'list_rep', {}).get((m_.group(1), int(m_.group(2)) + 1)) if m_ else None
+                    if rep is not None:
+                        pending_len.append((vi, rep))
                 if val is not None and cands[vi] and self.use_idx:
                     val = z3.simplify(val)
                     cands[vi][val.get_id()] = val
                 if val is not None and self.use_idx and len(self.idx_consts) <= 16:
                     cands[vi].update(self.idx_consts)      # index-like skolem constants for range-guarded variables
+        for vi, rep in pending_len:
+            if not cands[vi]:
+                cands[vi].update(class_reads.get(find(rep), {}))
         return cands
 
     def index_constants(self, forms):
